@@ -35,6 +35,10 @@ def check(ctx):
     full_queue_shutdown(ctx, thorough, c12.PROTOS, mirror=False)
     if thorough:
         full_queue_shutdown(ctx, thorough, ["ipfix", "sflow"], mirror=True)
+    # ---- crash points: an incarnation killed while it saves its templates, then a clean stop / start cycle
+    from props import c11
+    for proto in ("ipfix", "v9"):
+        c11.killed_while_saving(ctx, proto, codec.driver(ctx, proto), codec.elements_dir(ctx, extra=gen_flow.ext_yaml(), name="elements_b"))
     # ---- (2) end to end
     end_to_end(ctx, thorough)
     end_to_end(ctx, thorough, bind="127.0.0.1")
